@@ -102,7 +102,14 @@ class Run:
     def build(self):
         if self.bin:
             return self.bin
-        shutil.copy(os.path.join(REPO, "go.sum"), os.path.join(HARNESS, "go.sum"))
+        # checks may run side by side: replace go.sum atomically, and only when it differs
+        src, dst = os.path.join(REPO, "go.sum"), os.path.join(HARNESS, "go.sum")
+        want = open(src, "rb").read()
+        if not os.path.exists(dst) or open(dst, "rb").read() != want:
+            tmp = "%s.%d.tmp" % (dst, os.getpid())
+            with open(tmp, "wb") as f:
+                f.write(want)
+            os.replace(tmp, dst)
         out = os.path.join(self.scratch, "harness.test")
         t = time.time()
         p = subprocess.run([GO, "test", "-tags", "verif", "-c", "-o", out, "."], cwd=HARNESS,
